@@ -97,7 +97,7 @@ def gen_cases(rng, tier, scale):
             ('{{#with o as |x|}}{{#each @root.groups as |x|}}{{x.n}}{{/each}}{{x.k}}{{/with}}', 'g0g1K')]):
         cases.append(rcase(f'sh{k5}', tpl, D3, entry=4, kind='fixedout', exp=exp, tags=['shadowed-block-param']))
     D4 = {'l': [['a', 'b'], ['c']], 'o': {'x': {'n': 1}, 'y': {'n': 2}}, 'rows': [{'name': 'A', 'cells': [1, 2]}], 'tags': ['t1', 't2'],
-          'l2': [{'name': 'n1', 'members': ['m1', 'm2']}], 'meta': {'a': 1}, 'po': {'n': 'N'}}
+          'l2': [{'name': 'n1', 'members': ['m1', 'm2']}], 'meta': {'a': 1}, 'po': {'n': 'N'}, 'eo': {}, 'ea': []}
     for k6, (tpl, exp) in enumerate([
             ('{{#each l as |row i|}}{{#each row}}{{../i}}:{{this}} {{/each}}{{/each}}', '0:a 0:b 1:c '),
             ('{{#each o as |v k|}}{{#with v}}{{../k}}={{n}};{{/with}}{{/each}}', 'x=1;y=2;'),
@@ -111,6 +111,8 @@ def gen_cases(rng, tier, scale):
             ('{{#each rows as |tags|}}[{{#each @root.tags}}{{this}}{{/each}}]{{/each}}', '[t1t2]'),
             ('{{#each o as |meta tags|}}{{#each @root.tags}}{{@index}}{{/each}}{{@root.meta.a}};{{/each}}', '011;011;'),
             ('{{#with po as |tags|}}{{#each @root.tags as |x|}}{{x}}{{tags.n}}{{/each}}{{/with}}', 't1Nt2N'),
+            ('{{#each eo}}x{{else}}[{{meta.a}}{{this.meta.a}}]{{/each}}|{{#each ea}}x{{else}}[{{meta.a}}]{{/each}}', '[11]|[1]'),
+            ('{{#each l2}}{{#each ../eo}}x{{else}}{{name}}{{@index}}{{../meta.a}}{{/each}}{{/each}}', 'n101'),
             ('{{> pp po}}', 'NN')]):
         cases.append(rcase(f'up{k6}', tpl, D4, pre=['probes'], partials={'pp': '{{#each @root.tags}}{{../n}}{{/each}}'}, entry=0, kind='fixedout', exp=exp, tags=['up-to-value-bound']))
     return cases
